@@ -127,13 +127,17 @@ def run(tier):
     cf = corpus.corpus_facts(tier)
     ck.unit("corpus-%s" % tier)
     check_model(ck, model.Model(cf), "corpus", stats)
-    ck.floor("argument/return positions in corpus", stats["positions"], 400 if tier == "quick" else 3000)
+    ck.floor("argument/return positions in corpus", stats["positions"], 400 if tier == "quick" else 2950)
     ct = facts.cfg_cglue(tests=True)
     ck.unit("cglue --tests")
     check_model(ck, model.Model(ct, "cglue-test"), "cglue-tests", stats)
     ex = facts.cfg_examples()
     ck.unit("examples")
     check_model(ck, model.Model(ex), "examples", stats)
+    # clause (b): every row of the pair table is lossless for all values (same rules as C12; a row that special-cases a length,
+    # copies the contents or changes a variant breaks "arrives identical" even though both sides still agree)
+    from rules import c12
+    c12.check_rows(ck)
     stats["result_payload_wrapped_inside_map"] = len(INNER_WRAPPED)
     ck.extra.update(stats)
     return ck.finish(
